@@ -109,4 +109,55 @@ def run(tier="quick", seed=0, tag="C19/discovery#native"):
                         failures.append({"clause": f"{tag}.ble-callback-raised", "scenario": {"situation": situation, "manufacturer_data": data.hex(), "raised": repr(e)}})
 
     asyncio.run(robustness())
-    return {"cases": cases, "distinct": cases, "failures": failures, "bound": "every prefix of a valid regular / encrypted advertisement, random bytes; three pairing situations"}
+    n, f2 = mdns_records(tier, rnd, tag)
+    cases += n
+    failures += f2
+    return {"cases": cases, "distinct": cases, "failures": failures, "bound": "every prefix of a valid regular / encrypted advertisement, random bytes; three pairing situations; mDNS records with fuzzed TXT properties and address sets"}
+
+
+def mdns_records(tier, rnd, tag):
+    """HomeKitService.from_service_info on real zeroconf records: only ValueError may escape (the caller ignores invalid
+    records by catching it); a record that is accepted has its id lower-cased, a usable (not link-local, not unspecified)
+    address, and the numbers of its TXT record"""
+    import socket
+
+    from zeroconf.asyncio import AsyncServiceInfo
+
+    from aiohomekit.zeroconf import HomeKitService
+
+    cases, failures, seen = 0, [], set()
+
+    def fail(what, **kw):
+        if what not in seen:
+            seen.add(what)
+            failures.append({"clause": f"{tag}.{what}", "scenario": {k: repr(v)[:300] for k, v in kw.items()}})
+
+    TYPE = "_hap._tcp.local."
+    addr_pool = [socket.inet_aton("192.168.1.7"), socket.inet_aton("169.254.3.4"), socket.inet_aton("0.0.0.0"), socket.inet_aton("10.0.0.9"),
+                 socket.inet_pton(socket.AF_INET6, "fe80::1"), socket.inet_pton(socket.AF_INET6, "2001:db8::5"), socket.inet_pton(socket.AF_INET6, "::")]
+    usable = {"192.168.1.7", "10.0.0.9", "2001:db8::5"}
+    vals = ["1", "0", "12", "-3", "", "x", "1.5", " 7", "99999999999999999999", None, "AA:bb:CC:dd:EE:ff"]
+    for _ in range(3000 if tier == "thorough" else 400):
+        props = {}
+        for k in rnd.sample(["id", "ID", "Id", "c#", "s#", "ff", "sf", "ci", "md", "pv", "C#", "junk"], rnd.randrange(0, 9)):
+            v = rnd.choice(vals)
+            props[k] = v
+        addrs = rnd.sample(addr_pool, rnd.randrange(0, 4))
+        info = AsyncServiceInfo(TYPE, "Acc name." + TYPE, addresses=addrs, port=rnd.choice([0, 80, 51826]), properties=props)
+        cases += 1
+        try:
+            svc = HomeKitService.from_service_info(info)
+        except ValueError:
+            continue
+        except Exception as e:  # noqa: BLE001
+            fail("mdns-record-raises-another-exception", props=props, raised=e)
+            continue
+        low = {k.lower(): v for k, v in props.items() if v is not None}
+        if "id" not in low or svc.id != low["id"].lower():
+            fail("mdns-id-not-lower-cased-or-invented", props=props, got=svc.id)
+        if svc.address not in usable or any(a not in usable for a in svc.addresses):
+            fail("mdns-unusable-address-accepted", addresses=svc.addresses)
+        for key, attr in (("c#", "config_num"), ("s#", "state_num")):
+            if key in low and int(low[key]) != getattr(svc, attr):
+                fail("mdns-number-not-taken-from-the-record", props=props, attr=attr)
+    return cases, failures
